@@ -52,7 +52,22 @@ def spec(rng, depth, uns):
         k = {"pi": 0, "E": 0, "zoo": 0, "oo": 0, "uadd": 2, "Max": 2, "Lt": 2}.get(tag, 1)
         return ["uns", tag, [spec(rng, depth - 1, uns) for _ in range(k)]]
     r = rng.random()
-    if r < 0.5:
+    if r < 0.2:
+        # roots and reciprocal powers with the exponents sympy's canonical forms use: 1/sqrt(x), sqrt(x)/y, x**(-3/2) ..
+        c = lambda: spec(rng, depth - 1, uns)
+        ex = lambda: rng.choice([["rat", -1, 2], ["rat", -1, 2], ["rat", 1, 2], ["int", -1], ["int", -2], ["rat", -3, 2],
+                                 ["flt", -1, 2], ["flt", 1, 2], ["rat", 3, 2]])
+        shape = rng.choice(["rsqrt", "rsqrt", "sqrt_over", "powq", "powq", "rawpowq", "over_sqrt_prod"])
+        if shape == "rsqrt":
+            return ["op", "/", [rng.choice([["int", 1], c()]), ["op", "sqrt", [c()]]]]
+        if shape == "sqrt_over":
+            return ["op", "/", [["op", "sqrt", [c()]], c()]]
+        if shape == "powq":
+            return ["op", "**", [c(), ex()]]
+        if shape == "rawpowq":
+            return ["raw", "Pow", [c(), ex()]]
+        return ["op", "/", [c(), ["op", "sqrt", [["op", rng.choice(["*", "-", "+"]), [c(), c()]]]]]]
+    if r < 0.55:
         op = rng.choice(["+", "+", "-", "-", "*", "*", "/", "/", "**", "sqrt", "neg", "inv", "cos", "sin", "exp", "tan"])
         k = {"+": rng.choice([2, 2, 3]), "*": rng.choice([2, 2, 3]), "-": 2, "/": 2, "**": 2}.get(op, 1)
         return ["op", op, [spec(rng, depth - 1, uns) for _ in range(k)]]
@@ -249,6 +264,24 @@ def assignment(seed):
     r = random.Random(seed)
     return {n: complex(r.uniform(0.6, 1.9), r.uniform(-0.7, 0.7)) for n in SYMS}
 
+NEG = [-4.0, -0.25, -9.0, -1.0, -2.25, -0.5, -16.0, -0.0625, -3.0]
+SMALL = [0.125, -0.125, 0.03125, -0.0625, 0.25, -0.015625]
+
+def assignments(seed):
+    """the generic complex assignment, then assignments that put radicands on the branch cut of the
+    principal powers: every symbol a negative real, two complementary sign patterns, small zero-free reals
+    (all exactly representable, so that sums and products of symbols stay exactly real)"""
+    r = random.Random(seed + 1)
+    neg = {n: complex(r.choice(NEG), 0.0) for n in SYMS}
+    signs = {n: r.choice([-1, 1]) for n in SYMS}
+    mix1 = {n: complex(signs[n] * abs(r.choice(NEG)), 0.0) for n in SYMS}
+    mix2 = {n: complex(-z.real, 0.0) for n, z in mix1.items()}
+    small = {n: complex(r.choice(SMALL), 0.0) for n in SYMS}
+    return [("generic", assignment(seed)), ("negative", neg), ("mixed", mix1), ("mixed'", mix2), ("small", small)]
+
+CUT_VIA_I = False
+PERTURB = 0    # relative perturbation of symbol values and non-integer constants (conditioning probe), see well_defined
+
 def value(e, env, mp):
     """independent evaluator over (type, args): exact constants, mpmath complex arithmetic, principal powers"""
     if isinstance(e, bool):
@@ -261,25 +294,42 @@ def value(e, env, mp):
         return mp.mpc(e.real, e.imag)
     if isinstance(e, sympy.Symbol):
         z = env[str(e)]
-        return mp.mpc(z.real, z.imag)
+        k = 1 + mp.mpf(PERTURB) * (1 + SYMS.index(str(e)))     # a real factor: real values stay real
+        return mp.mpc(z.real, z.imag) * k if z.imag else mp.mpf(z.real) * k
     if isinstance(e, sympy.Integer):
         return mp.mpf(int(e))
     if isinstance(e, sympy.Float):
         v = exact_float(e)
-        return mp.mpf(v.numerator) / mp.mpf(v.denominator)
+        return mp.mpf(v.numerator) / mp.mpf(v.denominator) * (1 + mp.mpf(PERTURB) * mp.mpf("0.37"))
     if isinstance(e, sympy.Rational):
-        return mp.mpf(int(e.p)) / mp.mpf(int(e.q))
+        return mp.mpf(int(e.p)) / mp.mpf(int(e.q)) * (1 + mp.mpf(PERTURB) * mp.mpf("0.37"))
     if isinstance(e, sympy.core.numbers.ImaginaryUnit):
         return mp.mpc(0, 1)
     if isinstance(e, sympy.Add):
         return mp.fsum(value(a, env, mp) for a in e.args)
     if isinstance(e, sympy.Mul):
         return mp.fprod(value(a, env, mp) for a in e.args)
+    if isinstance(e, sympy.Pow) and e.args[0] is sympy.zoo:
+        # sympy's canonical form of 0**(-x), only met on the translated side: 0 when Re x < 0, infinite otherwise
+        x = value(e.args[1], env, mp)
+        if mp.re(x) < 0:
+            return mp.mpf(0)
+        raise ZeroDivisionError("infinite intermediate value (zoo to a non-negative power)")
     if isinstance(e, sympy.Pow):
         b, x = value(e.args[0], env, mp), value(e.args[1], env, mp)
-        if not (mp.im(x) == 0 and mp.isint(mp.re(x))) and mp.re(b) < 0 and abs(mp.im(b)) <= mp.mpf(10) ** -12 * abs(mp.re(b)):
-            raise ArithmeticError("base on the branch cut of a non-integer power: rounding of the literals decides the side")
-        return mp.power(b, x)
+        if not (mp.im(x) == 0 and mp.isint(mp.re(x))) and mp.im(b) == 0 and mp.re(b) < 0 and e.args[0].has(sympy.I):
+            global CUT_VIA_I
+            CUT_VIA_I = True     # a negative real radicand produced through complex arithmetic (finding F40)
+        # a base EXACTLY on the negative real axis has a principal power (argument +pi, on both sides of the
+        # comparison alike); a base a rounding error away from the axis has not: rounding decides the side
+        if not (mp.im(x) == 0 and mp.isint(mp.re(x))) and mp.re(b) < 0 and 0 < abs(mp.im(b)) <= mp.mpf(10) ** -12 * abs(mp.re(b)):
+            raise ArithmeticError("base next to the branch cut of a non-integer power: rounding decides the side")
+        if mp.im(b) == 0:
+            b = mp.mpf(mp.re(b))
+        r = mp.power(b, x)
+        if mp.isinf(r) or mp.isnan(r):
+            raise ZeroDivisionError("infinite intermediate value (0 to a negative power)")
+        return r
     if type(e) in (sympy.cos, sympy.sin, sympy.exp, sympy.tan) and len(e.args) == 1:
         return getattr(mp, type(e).__name__)(value(e.args[0], env, mp))
     # sympy may rewrite while re-translating (exp(1) -> E, sin(I*z) -> I*sinh(z)): only met on the translated side
@@ -289,22 +339,31 @@ def value(e, env, mp):
         return getattr(mp, type(e).__name__)(value(e.args[0], env, mp))
     raise TypeError(f"no value for {type(e).__name__}")
 
-def numeric(e, env, digits=30):
+def numeric(e, env, digits=30, perturb=0):
     import mpmath
-    with mpmath.workdps(digits):
-        return complex(value(e, env, mpmath.mp))
+    global PERTURB
+    PERTURB = perturb
+    try:
+        with mpmath.workdps(digits):
+            return complex(value(e, env, mpmath.mp))
+    finally:
+        PERTURB = 0
 
 def close(a, b):
     if cmath.isnan(a) or cmath.isnan(b) or cmath.isinf(a) or cmath.isinf(b):
         return None
-    return abs(a - b) <= 1e-9 * (1 + abs(a) + abs(b))
+    return abs(a - b) <= 1e-7 * (1 + abs(a) + abs(b))
 
 def well_defined(e, env):
-    """the expression has a finite value that does not depend on the working precision (no division by zero,
-    no catastrophic cancellation)"""
+    """the expression has a finite value here that depends neither on the working precision nor on a relative
+    change of 1e-12 of its constants and symbol values along the real direction (no division by zero, no
+    cancellation to an exact zero under a root, no pole next door): float rounding of constants (float(Rational),
+    Python arithmetic between literals) cannot then move the value by more than the tolerance.  A real
+    perturbation keeps negative radicands negative, so a branch-cut disagreement is not hidden by this."""
     s1, v1 = outcome(numeric, e, env, 30, timeout=10)
     s2, v2 = outcome(numeric, e, env, 60, timeout=10)
-    if s1 != "ok" or s2 != "ok" or not close(v1, v2):
+    s3, v3 = outcome(numeric, e, env, 30, 1e-12, timeout=10)
+    if s1 != "ok" or s2 != "ok" or s3 != "ok" or not close(v1, v2) or not close(v1, v3):
         return None
     return v1
 
@@ -346,6 +405,10 @@ FIXED = [
     ["op", "-", [X, ["op", "*", [["int", 2], Y]]]], ["op", "-", [X, ["op", "*", [Y, Z]]]], ["op", "-", [["op", "-", [X, Y]], Z]],
     ["op", "+", [X, ["op", "*", [["flt", -1, 1], Y]]]], ["op", "/", [["op", "*", [X, Y]], Z]], ["op", "/", [X, ["op", "*", [Y, Z]]]],
     ["op", "neg", [X]], ["op", "*", [["int", 2], ["I"]]], ["op", "+", [["rat", 1, 3], X]], ["op", "cos", [["op", "-", [X, Y]]]],
+    ["op", "/", [["int", 1], ["op", "sqrt", [X]]]], ["op", "/", [Y, ["op", "sqrt", [["op", "*", [X, Y]]]]]],
+    ["op", "**", [X, ["rat", -3, 2]]], ["op", "**", [X, ["flt", -1, 2]]], ["raw", "Pow", [["op", "-", [X, Y]], ["rat", -1, 2]]],
+    ["op", "+", [["op", "/", [["op", "cos", [Y]], ["op", "sqrt", [["op", "*", [X, Y]]]]]], ["int", 2]]],
+    ["op", "/", [["op", "sqrt", [X]], Y]], ["op", "sqrt", [["op", "inv", [X]]]],
     ["raw", "Add", [["raw", "Mul", [["int", -1], Y]], X]], ["raw", "Add", [X, ["raw", "Mul", [Y, ["int", -1]]]]],
     ["raw", "Mul", [["raw", "Pow", [Y, ["int", -1]]], X]], ["raw", "Add", [X, ["raw", "Mul", [["int", -1], ["int", 0], ["uns", "pi", []]]]]],
     ["uns", "ucos", [X]], ["uns", "uadd", [X, Y]], ["uns", "log", [X]], ["uns", "pi", []], ["op", "exp", [["int", 1]]],
@@ -393,9 +456,8 @@ def show(e):
     return "<unprintable sympy object>"
 
 def run_convert(inp):
-    try:
-        e = build(inp["spec"])
-    except Exception as ex:  # sympy refused to construct the object (e.g. relational inside arithmetic)
+    bst, e = outcome(build, inp["spec"], timeout=5)
+    if bst != "ok":  # sympy refused to construct the object (e.g. relational inside arithmetic) or did not finish
         return dict(chk=None, oracle_ok=True, oracle_msg="", kind="convert-unbuildable", nontrivial=False)
     st, out = outcome(expression_from_sympy, e, timeout=20)
     sup, uns = py_classify(e)
@@ -431,20 +493,32 @@ def run_convert(inp):
         if not refused:
             ok, msg = False, f"{show(e)} contains an unsupported construct but was translated to {back}"
     elif sup:
-        v1 = well_defined(e, env)
-        if v1 is None:
-            kind = "convert-degenerate-value"      # zoo/nan/ill-conditioned original: no claim about the value
-        elif refused:
-            ok, msg = False, f"{show(e)} is inside the grammar but was refused ({out if st != 'ok' else back})"
-        else:
-            s2, v2 = outcome(numeric, back, env, timeout=10)
+        compared = 0
+        via_i = False
+        global CUT_VIA_I
+        for label, env_k in assignments(inp["envseed"]):
+            CUT_VIA_I = False
+            v1 = well_defined(e, env_k)
+            flagged = CUT_VIA_I
+            if v1 is None:
+                continue                            # zoo/nan/ill-conditioned original here: no claim about the value
+            if refused:
+                ok, msg = False, f"{show(e)} is inside the grammar but was refused ({out if st != 'ok' else back})"
+                break
+            s2, v2 = outcome(numeric, back, env_k, timeout=10)
             if s2 != "ok" and "ArithmeticError" in str(v2):
-                kind = "convert-degenerate-value"  # the re-translated expression sits on a branch cut
-            elif s2 != "ok" or not close(v1, v2):
-                ok, msg = False, f"{show(e)} -> {out} -> {back}: value {v1} became {v2}"
+                continue                            # the re-translated expression sits next to a branch cut
+            compared += 1
+            if s2 != "ok" or not close(v1, v2):
+                at = {n: z for n, z in env_k.items() if sympy.Symbol(n) in e.free_symbols}
+                ok, msg = False, f"{show(e)} -> {out} -> {back}: at the {label} assignment {at} value {v1} became {v2}"
+                via_i = flagged
+                break
+        if ok and compared == 0:
+            kind = "convert-degenerate-value"
     else:
         kind = "convert-other-number"
-    sig = "F30" if collide(e) else ("F31" if lost else None)
+    sig = "F30" if collide(e) else ("F31" if lost else ("F40" if not ok and sup and via_i else None))
     return dict(chk=chk, oracle_ok=ok, oracle_msg=msg, kind=kind, sig=sig,
                 nontrivial=isinstance(e, sympy.Basic) and len(getattr(e, "args", ())) > 0)
 
@@ -528,4 +602,11 @@ def w_n2():
     return st == "ok" or st2 != "ok", (f"Add(x, Mul(-1, 0, pi)) (unevaluated) contains pi but is translated to {out!r}; "
                                        f"x - 1/exp(-1) (unevaluated, inside the grammar) gives {out2}: expr*(-1) re-evaluates the product")
 
-H.main(gen, run_case, {"F30": w_n1, "F31": w_n2})
+def w_n3():
+    e = sympy.Mul(-2, sympy.Pow(sympy.Pow(sympy.I, -2, evaluate=False), sympy.Rational(-1, 2), evaluate=False), evaluate=False)
+    st, out = outcome(lambda: translate_expression(expression_from_sympy(e), SYMPY_DIALECT))
+    v = numeric(e, {})
+    bad = st != "ok" or not close(v, complex(out))
+    return bad, f"-2*(I**-2)**(-1/2) (unevaluated) has value {v} but is translated to {out!r}: 1j**-2 is computed in Python complex floats"
+
+H.main(gen, run_case, {"F40": w_n3, "F30": w_n1, "F31": w_n2})
